@@ -737,3 +737,148 @@ pub fn compare_layers(api: &str, want: &[RLayer], got: &[RLayer], check_srcs: bo
     }
     out
 }
+
+// ------------------------------------------------------------------------------------------
+// derived views of the whole-packet slicers (`ether_payload()`, `ip_payload()`, `vlan()`, `vlan_ids()`,
+// `payload_ether_type()`, `is_ip_payload_fragmented()`): convenience accessors that re-derive what the primary
+// fields already say; judged against the reference layers
+
+/// what the accessors returned, in harness terms
+#[derive(Debug, Default)]
+pub struct Views {
+    /// (ether type, payload range, length source)
+    pub ether_payload: Option<(u16, (usize, usize), Src)>,
+    /// outer None: the type has no such accessor
+    pub payload_ether_type: Option<Option<u16>>,
+    /// (ip number, fragmented, payload range)
+    pub ip_payload: Option<(u8, bool, (usize, usize))>,
+    pub frag_flag: Option<bool>,
+    /// 0 none, 1 single, 2 double + (header offset, vid) of the tags it holds
+    pub vlan: (u8, Vec<(usize, u16)>),
+    pub vlan_ids: Vec<u16>,
+    /// were net / transport decoded (the crate's own primary fields)
+    pub has_net_or_transport: bool,
+}
+
+fn vlan_view(base: &[u8], v: Option<VlanSlice>) -> Result<(u8, Vec<(usize, u16)>), String> {
+    Ok(match v {
+        None => (0, vec![]),
+        Some(VlanSlice::SingleVlan(s)) => (1, vec![(rel(base, s.header_slice())?.0, s.vlan_identifier().value())]),
+        Some(VlanSlice::DoubleVlan(d)) => (2, vec![(rel(base, d.outer.header_slice())?.0, d.outer.vlan_identifier().value()), (rel(base, d.inner.header_slice())?.0, d.inner.vlan_identifier().value())]),
+    })
+}
+
+pub fn views_strict(base: &[u8], p: &SlicedPacket) -> Result<Views, String> {
+    Ok(Views {
+        ether_payload: match p.ether_payload() {
+            Some(e) => Some((e.ether_type.0, rel(base, e.payload)?, src_of(e.len_source))),
+            None => None,
+        },
+        payload_ether_type: Some(p.payload_ether_type().map(|e| e.0)),
+        ip_payload: match p.ip_payload() {
+            Some(i) => Some((i.ip_number.0, i.fragmented, rel(base, i.payload)?)),
+            None => None,
+        },
+        frag_flag: Some(p.is_ip_payload_fragmented()),
+        vlan: vlan_view(base, p.vlan())?,
+        vlan_ids: p.vlan_ids().iter().map(|v| v.value()).collect(),
+        has_net_or_transport: p.net.is_some() || p.transport.is_some(),
+    })
+}
+
+pub fn views_lax(base: &[u8], p: &LaxSlicedPacket) -> Result<Views, String> {
+    Ok(Views {
+        ether_payload: match p.ether_payload() {
+            Some(e) => Some((e.ether_type.0, rel(base, e.payload)?, src_of(e.len_source))),
+            None => None,
+        },
+        payload_ether_type: None,
+        ip_payload: match p.ip_payload() {
+            Some(i) => Some((i.ip_number.0, i.fragmented, rel(base, i.payload)?)),
+            None => None,
+        },
+        frag_flag: None,
+        vlan: vlan_view(base, p.vlan())?,
+        vlan_ids: p.vlan_ids().iter().map(|v| v.value()).collect(),
+        has_net_or_transport: p.net.is_some() || p.transport.is_some(),
+    })
+}
+
+fn same_range(a: (usize, usize), b: (usize, usize)) -> bool {
+    a == b || (a.1 == 0 && b.1 == 0)
+}
+
+/// `ether_door`: Some(t) when decoding started at an ether type (the link field then is `EtherPayload{t, whole input}`)
+pub fn check_views(api: &str, ether_door: Option<u16>, input_len: usize, want: &[RLayer], v: &Views) -> Vec<(String, String)> {
+    let mut out: Vec<(String, String)> = vec![];
+    let vlans: Vec<&RLayer> = want.iter().filter(|l| l.kind == RK::Vlan).collect();
+    let vid = |l: &RLayer| l.fields.iter().find(|f| f.0 == "vid").map(|f| f.1 as u16).unwrap_or(0xffff);
+    // vlan_ids(): the ids of all decoded VLAN tags, outermost first
+    let want_ids: Vec<u16> = vlans.iter().map(|l| vid(l)).collect();
+    if v.vlan_ids != want_ids {
+        out.push((format!("derived-view:{}:vlan_ids", api), format!("{}: vlan_ids() = {:?}, the decoded VLAN tags carry {:?}", api, v.vlan_ids, want_ids)));
+    }
+    // vlan(): none / the only tag / the two outermost tags
+    let want_vlan: (u8, Vec<(usize, u16)>) = (vlans.len().min(2) as u8, vlans.iter().take(2).map(|l| (l.off, vid(l))).collect());
+    if v.vlan != want_vlan {
+        out.push((format!("derived-view:{}:vlan", api), format!("{}: vlan() = {:?} (kind, [(header offset, id)]), the decoded VLAN tags are {:?}", api, v.vlan, want_vlan)));
+    }
+    // innermost ether payload
+    let linkish: Option<&RLayer> = want.iter().filter(|l| matches!(l.kind, RK::Eth2 | RK::Sll | RK::Vlan | RK::Macsec)).last();
+    let macsec_sl = want.iter().any(|l| l.kind == RK::Macsec && l.fields.iter().any(|f| f.0 == "short_len" && f.1 != 0));
+    let want_ep: Option<Option<(u16, (usize, usize))>> = match linkish {
+        Some(l) => match l.next {
+            Next::Ether(t) => Some(Some((t, l.pay))),
+            Next::MacsecModified => Some(None),
+            _ => None, // SLL protocol values that are not ether types: not judged
+        },
+        None => match ether_door {
+            Some(t) => Some(Some((t, (0, input_len)))),
+            None => Some(None),
+        },
+    };
+    if let Some(w) = want_ep {
+        match (w, &v.ether_payload) {
+            (None, None) => {}
+            (Some((t, r)), Some((gt, gr, src))) => {
+                if t != *gt || !same_range(r, *gr) {
+                    out.push((format!("derived-view:{}:ether_payload", api), format!("{}: ether_payload() = ether type {:#06x} range {:?}, the innermost link layer says {:#06x} {:?}", api, gt, gr, t, r)));
+                }
+                if !(*src == Src::Slice || (*src == Src::MacsecSl && macsec_sl)) {
+                    out.push((format!("derived-view:{}:ether_payload:len_source", api), format!("{}: ether_payload().len_source = {:?} without such a length field in front", api, src)));
+                }
+            }
+            (w, g) => out.push((format!("derived-view:{}:ether_payload:presence", api), format!("{}: ether_payload() = {:?}, expected {:?}", api, g, w))),
+        }
+        if let Some(pt) = v.payload_ether_type {
+            let wpt = if v.has_net_or_transport { None } else { w.map(|x| x.0) };
+            if pt != wpt {
+                out.push((format!("derived-view:{}:payload_ether_type", api), format!("{}: payload_ether_type() = {:?}, expected {:?} (net/transport decoded: {})", api, pt, wpt, v.has_net_or_transport)));
+            }
+        }
+    }
+    // IP payload
+    let ip = want.iter().find(|l| matches!(l.kind, RK::Ipv4 | RK::Ipv6));
+    match (ip, &v.ip_payload) {
+        (None, None) => {}
+        (Some(l), Some((n, frag, r))) => {
+            // the payload's protocol number is the `next header` of the last header of the IP layer (extensions included)
+            let last = want.iter().filter(|x| matches!(x.kind, RK::Ipv4 | RK::Ipv6 | RK::Ah | RK::Hbh | RK::Dest | RK::Routing | RK::Frag)).last().unwrap_or(l);
+            let wn = match last.next {
+                Next::Ip(n) => n,
+                _ => 0,
+            };
+            if wn != *n || l.fragmented != *frag || !same_range(l.pay, *r) {
+                out.push((format!("derived-view:{}:ip_payload", api), format!("{}: ip_payload() = ip number {} fragmented {} range {:?}, the IP layer says {} {} {:?}", api, n, frag, r, wn, l.fragmented, l.pay)));
+            }
+        }
+        (w, g) => out.push((format!("derived-view:{}:ip_payload:presence", api), format!("{}: ip_payload() = {:?} but the decoded net layer is {:?}", api, g, w.map(|l| l.kind)))),
+    }
+    if let Some(f) = v.frag_flag {
+        let wf = ip.map(|l| l.fragmented).unwrap_or(false);
+        if f != wf {
+            out.push((format!("derived-view:{}:is_ip_payload_fragmented", api), format!("{}: is_ip_payload_fragmented() = {}, the IP layer says {}", api, f, wf)));
+        }
+    }
+    out
+}
